@@ -118,7 +118,7 @@ def main():
                            kind_free_text="Lean 4 theorems over an executable model of codec, framing machine and actor (lean/); Rust harness "
                            "(harness/) drives the real library under a deterministic executor; transcripts diffed line by line; Python oracles "
                            "(checklib/oracles.py) search for failing inputs; corpus/ holds regression scripts of every repaired defect")],
-             checks=checks, notes="see DESIGN.md; checks share builds under a lock; work/ is scratch; known_findings.json lists K1 (C15) and the 21 repaired defects; seeded/ holds 136 independently written breaking changes (tools/seeded_regress.sh)",
+             checks=checks, notes="see DESIGN.md; checks share builds under a lock; work/ is scratch; known_findings.json lists K1 (C15) and the 21 repaired defects; seeded/ holds 153 independently written breaking changes (tools/seeded_regress.sh)",
              not_applicable=na)
     json.dump(m, open(os.path.join(ROOT, 'MANIFEST.json'), 'w'), indent=1)
     print('claimed', [c['property_id'] for c in checks], 'not yet', [x['property_id'] for x in na])
